@@ -92,8 +92,40 @@ def model_request(group, target, contents):
             'strict_error': any(b.get('unlisted') for b in group)}
 
 
-def real_restore(ctx, w, bdir, rdir):
-    r = store.run_vsb(ctx, ['-c', w.cfg, 'restore', bdir, rdir])
+def creation_modes(tfile, rdir):
+    """From an interposer trace of a restore: the permission bits requested for every directory and file created at
+    or below the restore directory -> list of (call, path, octal mode string) that are not owner-only."""
+    bad = []
+    try:
+        for line in open(tfile, errors='surrogateescape'):
+            f = line.rstrip('\n').split('\t')
+            if len(f) < 6 or not f[0].isdigit() or f[4] == '-1':
+                continue
+            call, path, extra = f[1], f[2], f[3]
+            if not (path == rdir or path.startswith(rdir + '/')):
+                continue
+            if call == 'mkdir' and extra != '700':
+                bad.append((call, path[len(rdir):], extra))
+            elif call == 'open' and 'CREAT' in extra and '|m' in extra and extra.rsplit('|m', 1)[1] != '600':
+                bad.append((call, path[len(rdir):], extra.rsplit('|m', 1)[1]))
+    except OSError:
+        pass
+    return bad
+
+
+def real_restore(ctx, w, bdir, rdir, modes=None):
+    """`modes`: a list to receive the creations that were not owner-only (observed through the interposer)."""
+    if modes is not None:
+        tfile = rdir + '.trace'
+        real = os.path.join(os.path.realpath(os.path.dirname(rdir)), os.path.basename(rdir))
+        r = store.run_vsb(ctx, ['-c', w.cfg, 'restore', bdir, rdir], shim_env={'TRACE': tfile, 'WATCH': real})
+        modes.extend(creation_modes(tfile, real))
+        try:
+            os.unlink(tfile)
+        except OSError:
+            pass
+    else:
+        r = store.run_vsb(ctx, ['-c', w.cfg, 'restore', bdir, rdir])
     tree = None
     if os.path.isdir(rdir):
         tree = {}
